@@ -34,10 +34,15 @@ class PropBase:
     # kept or gets an extra transmit-only pass before and / or after it.  Receive-only passes are NOT mixed in: no property quantifies over
     # them and a Flow Control read by one can be lost (DESIGN 11.3, observation `C10.fc_lost_witness`).
     partial_passes = 0.0
+    # probability that, in addition, receive-only passes process(do_tx=False) are put IN FRONT of full passes of a scenario with partial passes
+    # (same instant, always followed by the full pass, so every pending transmission is still served at that instant).  Only enabled for
+    # single-endpoint properties whose judge was checked to be indifferent to how the reading is batched.
+    rx_only_passes = 0.0
 
     def mix_partial_passes(self, rng, sc):
         if not self.partial_passes or rng.random() >= self.partial_passes:
             return sc
+        with_rx = rng.random() < self.rx_only_passes
         q = rng.choice([0.1, 0.3, 0.8])
         ops = []
         n = 0
@@ -48,8 +53,10 @@ class PropBase:
                 continue
             n += 1
             txo = dict(op, rx=False)
-            how = rng.randrange(3)
-            if how == 0:
+            how = rng.randrange(5 if with_rx else 3)
+            if how >= 3:
+                ops += [dict(op, tx=False)] * (how - 2) + [op]
+            elif how == 0:
                 ops += [txo, op]
             elif how == 1:
                 ops += [op, txo]
